@@ -43,6 +43,11 @@ CHECKS = {
    text="All 11^5 candles over a special-value set (NaN, infinities, signed zeros, subnormal, huge) x 11 previous closes for tp/hl2/ohlc4/volumed price/source/clv/tr_close/validate on Candle, tuple and array; random valid and invalid candles for associativity of + and Sequence::validate; text forms of all 8 sources and all 15 MA names at every length 0..=255 round-trip, and 80k (thorough 800k) canonical/near-miss/arbitrary strings are decided by grammar oracles for Source and MA parsing.",
    note="Trusted: textbook formulas and the two grammar oracles in props/c18.rs. validate() is not asserted where only `open` lies outside [low, high] (doc/predicate disagreement).",
    ref="DESIGN.md §5 C18"),
+ "C17": dict(
+   technique="PBT with boundary-aware stateful op sequences (Renko) and fold/validity oracles",
+   text="CollapseTimeframe against a bit-exact block fold for streaming, batch and continuous batch collapse (periods 1..10^4, usize::MAX); HeikinAshi outputs validate for valid inputs; Renko driven by generated move sequences placed exactly on, +-1..3 ulps around and far beyond its own thresholds (multi-brick jumps, reversals, zero/huge volumes, brick sizes from EPSILON to just below 1, seven sources) and judged by a brick-chain validity predicate.",
+   note="Trusted: fold model, chain predicate with a 16-eps indifference band around thresholds; thresholds read from the serialized instance only to place inputs.",
+   ref="DESIGN.md §5 C17"),
 }
 
 PENDING = {
